@@ -4,6 +4,7 @@ import Upf.Proofs.Lockset
 import Upf.Model.LockFacts
 import Upf.Proofs.PoolWorld
 import Upf.Proofs.History
+import Upf.Proofs.AnyHistory
 /-!
 # C06 — UE IP pool: in range, exclusive, sticky, conserved
 
@@ -91,5 +92,21 @@ theorem pool_invariant_along_every_history (base : List Nat) (hb : base.Nodup) (
   refine Agent.pool_run base cfg evs _ (Agent.inv_start cfg _ g) (Agent.farwf_start _ g) henv ?_ ?_
   · exact ⟨by simp, hb, by simp⟩
   · intro k hk; simp [Agent.poolKeys] at hk
+
+/-- **no envelope at all**: after EVERY sequence of requests on the agent model — association setups, PFD updates, establishments,
+Session Modifications with any mix of create / update / remove IEs, deletions, reports, association endings, each accepted or
+refused at any point, over any number of associations — the pool invariant holds: free ++ held is a permutation of the configured
+addresses (none handed out twice, none lost) and no session holds two -/
+theorem pool_invariant_after_any_requests (base : List Nat) (hb : base.Nodup) (cfg : Agent.Cfg) (g : Teid.G) (qs : List Agent.Req) :
+    Agent.PoolInv base (qs.foldl (Agent.stepReq cfg) { pool := some { free := base, inv := [] }, teid := g }).pool :=
+  Agent.pool_any_history base cfg qs _ ⟨by simp, hb, by simp⟩
+
+/-- one step of it: every Session Modification, whatever it carries, keeps the invariant, and only the session it names can come
+to hold an address through it -/
+theorem any_modification_keeps_pool (base : List Nat) (cfg : Agent.Cfg) (w : Agent.World) (a : Nat) (r : Agent.ModReq)
+    (hP : Agent.PoolInv base w.pool) :
+    Agent.PoolInv base (Agent.modify cfg w a r).world.pool ∧
+    ∀ k ∈ Agent.poolKeys (Agent.modify cfg w a r).world.pool, k ∈ Agent.poolKeys w.pool ∨ k = r.seid :=
+  Agent.modify_pool_any base cfg w a r hP
 
 end Props.C06
